@@ -39,8 +39,14 @@ FB(op, v) == Flt(<<<<Gac(<<K(kb)>>, TRUE, FALSE, op, FALSE, <<Val(v)>>)>>>>)
 FBExists == Flt(<<<<Gac(<<K(kb)>>, TRUE, FALSE, "exists", FALSE, <<>>)>>>>)
 FCx == Flt(<<<<Gac(<<K(kc)>>, TRUE, FALSE, "eq", FALSE, <<Val(S(sx))>>)>>>>)
 
+\* keys filters on the map under `a`: ==, !=, in, not in against a string, a list of strings, a regex
+KF(op, on, v) == [p |-> "keys", op |-> op, on |-> on, rhs |-> Val(v)]
 E1Queries ==
-  << <<K(ka)>>, <<K(ka), Idx>>, <<K(ka), All>>, <<K(ka), At(0)>>, <<K(ka), At(1)>>,
+  << <<K(ka), KF("eq", FALSE, S(kb))>>, <<K(ka), KF("eq", TRUE, S(kb))>>,
+     <<K(ka), KF("in", FALSE, L(<<S(kb), S(kz)>>))>>, <<K(ka), KF("in", TRUE, L(<<S(kb), S(kz)>>))>>,
+     <<K(ka), KF("in", FALSE, RE(TRUE, FALSE, kb))>>, <<K(ka), KF("in", TRUE, RE(TRUE, FALSE, kb))>>,
+     <<K(ka), KF("eq", FALSE, RE(TRUE, FALSE, kb))>>, <<K(ka), KF("eq", TRUE, RE(TRUE, FALSE, kb))>>,
+     <<K(ka)>>, <<K(ka), Idx>>, <<K(ka), All>>, <<K(ka), At(0)>>, <<K(ka), At(1)>>,
      <<K(ka), K(kb)>>, <<K(ka), Idx, K(kb)>>, <<K(ka), All, K(kb)>>, <<K(ka), K(kb), Idx>>,
      <<K(ka), FB("eq", I(1))>>, <<K(ka), FBExists, K(kc)>>,
      <<K(ka), Idx, FB("ge", I(2)), K(kb)>>, <<K(ka), K(kb), K(kc)>>, <<This, K(ka)>>,
